@@ -20,9 +20,9 @@ FUNCTIONS = ["pedal.resolvers.simple.by_priority", "pedal.resolvers.simple.prior
              "pedal.core.report.Report.suppress", "pedal.core.feedback.Feedback.__init__/_handle_condition"]
 BOUNDS = {
     "quick": {"rank table": "all ASCII category/priority strings, any case (E2)",
-              "ordering": "N=2 feedbacks, 6 categories x 6 priorities x activate each, symbolic messages",
+              "ordering": "N=2 feedbacks, 6 categories x 8 priorities (incl. highest, lowest, aliases) x activate each, symbolic messages",
               "flags": "N=2, activate/muted/kind(3)/else_message each, simple and full resolver",
-              "suppression": "1 or 2 suppress() calls of the 5 forms (all 5 single forms + 10 ordered pairs), labels from {equal, different, case-variant}, symbolic int field values, category spellings {case variant, alias, unrelated}",
+              "suppression": "1 or 2 suppress() calls of the 5 forms (all 5 single forms + 10 ordered pairs), feedback label {a, Ab}, suppress labels {equal, different, case-variant, mixed-case equal}, one or two symbolic int fields, category spellings {case variant, alias, unrelated}",
               "ties": "N=3 equal keys"},
     "thorough": {"as quick plus": "N=3 ordering (3x3 reduced menus), all 25 ordered suppression form pairs"},
 }
@@ -143,11 +143,11 @@ def obligations(tier):
     w = "winner = min((documented key, creation index)) over activated feedback; title/message/label/category/used from the winner; default result iff none"
     if tier == "quick":
         for c0 in range(6):
-            for p0 in (0, 3):
+            for p0 in (0, 3, 6):
                 obs.append(Ob("C01.order2", F, "order2", 200, part="%d,%d" % (c0, p0), what=w))
     else:
         for c0 in range(6):
-            for p0 in range(6):
+            for p0 in range(8):
                 obs.append(Ob("C01.order2", F, "order2", 400, part="%d,%d" % (c0, p0), what=w))
         for c0 in range(3):
             for p0 in range(3):
